@@ -32,36 +32,42 @@ inductive PrintErr where
 def sortRows (asc : Bool) (ls : List Line) : List Line :=
   ls.mergeSort (fun a b => if asc then decide (a.bf ≤ b.bf) else decide (b.bf ≤ a.bf))
 
-def printRows (pdg2evt : List (String × String)) (t : Tables) (mother : String) (o : PrintOpts) :
-    Except PrintErr (List PRowOut) := do
+/-- the option check at the top of `print_decay_modes` -/
+def optsRefused (o : PrintOpts) : Bool :=
   match o.scale with
-  | some s =>
-    if o.normalize then throw .options
-    if !(0 < s && s ≤ 1) then throw .options
-  | none => pure ()
-  let m ← if o.pdgName then
-      match dget pdg2evt mother with
-      | some e => pure e
-      | none => throw .unknownPdgName
-    else pure mother
-  let ls ← match findModes t m with
-    | .ok ls => pure ls
-    | .error e => throw (.sem e)
-  let sorted := sortRows o.ascending ls
-  let norm : Rat ←
-    if o.normalize then pure (sorted.foldl (fun acc l => acc + l.bf) 0)
-    else match o.scale with
-      | some s =>
-        -- the largest branching fraction: last row when ascending, else the first
-        match (if o.ascending then sorted.getLast? else sorted.head?) with
-        | some l => pure (l.bf / s)
-        | none => throw (.sem (.runtime "IndexError"))
-      | none => pure 1
-  if norm == 0 && !sorted.isEmpty then throw .zeroDivision
-  pure (sorted.map fun l =>
-    let v := l.bf / norm
-    { shown := fmtG7 v, exact := v, ds := l.ds,
-      model := if o.printModel then some (l.modelShown o.displayPhotos) else none,
-      params := if o.printModel then l.params.getD [] else [] })
+  | some s => o.normalize || !(decide (0 < s) && decide (s ≤ 1))
+  | none => false
+
+def sumBf (ls : List Line) : Rat := (ls.map (·.bf)).sum
+
+/-- the divisor: the sum when normalising; (largest bf)/scale when scaling (the largest is the last row
+    when ascending, else the first); 1 otherwise.  `none`: scaling an empty table (IndexError) -/
+def normOf (o : PrintOpts) (sorted : List Line) : Option Rat :=
+  if o.normalize then some (sumBf sorted)
+  else match o.scale with
+    | some s => ((if o.ascending then sorted.getLast? else sorted.head?).map fun l => l.bf / s)
+    | none => some 1
+
+def rowOut (o : PrintOpts) (norm : Rat) (l : Line) : PRowOut :=
+  let v := l.bf / norm
+  { shown := fmtG7 v, exact := v, ds := l.ds,
+    model := if o.printModel then some (l.modelShown o.displayPhotos) else none,
+    params := if o.printModel then l.params.getD [] else [] }
+
+def printRows (pdg2evt : List (String × String)) (t : Tables) (mother : String) (o : PrintOpts) :
+    Except PrintErr (List PRowOut) :=
+  if optsRefused o then .error .options else
+  match (if o.pdgName then dget pdg2evt mother else some mother) with
+  | none => .error .unknownPdgName
+  | some m =>
+    match findModes t m with
+    | .error e => .error (.sem e)
+    | .ok ls =>
+      let sorted := sortRows o.ascending ls
+      match normOf o sorted with
+      | none => .error (.sem (.runtime "IndexError"))
+      | some norm =>
+        if norm == 0 && !sorted.isEmpty then .error .zeroDivision
+        else .ok (sorted.map (rowOut o norm))
 
 end DL
